@@ -261,7 +261,11 @@ macro_rules! num_ops_common {
         fn gt(self, x: $simd, y: $simd) -> $mask {
             x.map_with(y, |x, y| if x > y { !0 } else { 0 })
         }
+    };
+}
 
+macro_rules! int_min_max {
+    ($simd:ident) => {
         #[inline]
         fn min(self, x: $simd, y: $simd) -> $simd {
             x.map_with(y, |x, y| x.min(y))
@@ -326,6 +330,21 @@ unsafe impl BitOps<f32> for GenericIsa {
 
 unsafe impl NumOps<f32> for GenericIsa {
     num_ops_common!(F32x4, M32);
+
+    // `f32::min` / `f32::max` ignore a NaN operand, whereas the default
+    // `NumOps::min` / `max` (`select(x, y, le(x, y))`) and the x86 `MINPS` /
+    // `MAXPS` instructions used by the AVX2 and AVX-512 ISAs return the second
+    // operand if either is NaN or both are zero. Use the comparison form here
+    // so that all ISAs agree.
+    #[inline]
+    fn min(self, x: F32x4, y: F32x4) -> F32x4 {
+        x.map_with(y, |x, y| if x < y { x } else { y })
+    }
+
+    #[inline]
+    fn max(self, x: F32x4, y: F32x4) -> F32x4 {
+        x.map_with(y, |x, y| if x > y { x } else { y })
+    }
 }
 
 impl FloatOps<f32> for GenericIsa {
@@ -373,6 +392,7 @@ macro_rules! impl_simd_int_ops {
 
         unsafe impl NumOps<$elem> for GenericIsa {
             num_ops_common!($simd, $mask);
+            int_min_max!($simd);
         }
 
         impl IntOps<$elem> for GenericIsa {
